@@ -185,6 +185,47 @@ def _produce(w: W, signers: list[dict[str, Any]]) -> Member | None:
     return m
 
 
+def _other_hash(w: W, signers: list[dict[str, Any]]) -> None:
+    """The scheme under another hash function (the library offers any): the BIP fixes no bytes there, but the
+    object and the free function are one algorithm -- same octets for the same (message, key, aux) -- and the
+    signature verifies under the signer's key with that hash function. Which arm signs is decided from the
+    curve AND the hash function; sha256 on secp256k1 is the only pair the bindings serve."""
+    ctx, ch, ec = w.ctx, w.ch, w.ec
+    hf = ch.pick([hashlib.sha3_256, hashlib.sha512, hashlib.sha1, hashlib.blake2s], "hf")
+    size = hf().digest_size
+    sg = ch.pick(signers, "hf.signer")
+    msg = ch.nbytes(ch.pick([size, size, 0, 9, 100], "hf.msglen"), "hf.msg")
+    aux = ch.nbytes(size, "hf.aux") if ch.draw(3, "hf.aux?") else None
+    site = f"hf:{hf().name}"
+    mark = len(w.rng.tokens)
+    try:
+        via_object = ssa.Signer(sg["q"], ec, hf).sign_(msg, aux)
+    except BTClibException as e:
+        # a zero challenge or nonce is one in n and a documented refusal: reachable on toy curves only
+        ctx.check(P, "sign-succeeds", not w.bip, f"Signer({hf().name}) on {w.label}: {type(e).__name__}: {e}", site=site)
+        ctx.probe("toy-sign-refused")
+        return
+    except Exception as e:  # noqa: BLE001
+        ctx.check(P, "sign-succeeds", False, f"Signer({hf().name}) on {w.label} (bindings={st.backend()}): {type(e).__name__}: {e}", site=site)
+        raise RunAborted(f"other-hash: {type(e).__name__}: {e}") from e
+    drawn = w.rng.tokens[mark:]
+    used = aux if aux is not None else drawn[0] if len(drawn) == 1 and len(drawn[0]) == size else None
+    with ctx.must_succeed(P, "verify-total", site):
+        # octets carry no curve: the signature object is what names it
+        sig = ssa.Sig(int.from_bytes(via_object[: ec.p_size], "big"), int.from_bytes(via_object[ec.p_size :], "big"), ec, check_validity=False)
+        ok = ssa.verify_(msg, sg["Q"][0], sig, hf)
+    ctx.check(P, "signature-verifies", ok is True, lambda: f"Signer({hf().name}) on {w.label} (bindings={st.backend()}): the signature does not verify under its own key and hash function", site=site)
+    if used is not None:
+        try:
+            free = ssa.sign_(msg, sg["q"], used, ec, hf).serialize()
+        except BTClibException as e:
+            ctx.check(P, "sign-succeeds", not w.bip, f"sign_({hf().name}) on {w.label}: {type(e).__name__}: {e}", site=site)
+            return
+        ctx.check(P, "signer-object-equals-free-function", free == via_object, lambda: f"{hf().name} on {w.label} (bindings={st.backend()}): Signer {via_object.hex()} != sign_ {free.hex()}", site=site)
+    ctx.log("other-hash", hf().name, len(msg), ok)
+    ctx.probe(f"other-hash:{hf().name}")
+
+
 def _commitment(w: W, m: Member, commit_hash: bytes, receipt: Any, style: str) -> None:
     ctx, ec = w.ctx, w.ec
     with ctx.must_succeed(P, "verify-total", "commitment"):
@@ -344,6 +385,8 @@ def run(ctx: Ctx) -> None:
         m = _produce(w, signers)
         if m is not None:
             members.append(m)
+    if signers and ch.chance(1, 3, "other-hash?"):
+        _other_hash(w, signers)
     if not members:
         ctx.log("nothing-signed")
         return
